@@ -107,6 +107,8 @@ T_clidropped(ev) == ev.status = 5 => (ev.c \in DOMAIN cstate /\ ev.now - cstate[
 T_connfail(ev) == (ev.status = 4 /\ ev.c \in DOMAIN cstate /\ cstate[ev.c].status = 1 /\ ~cstate[ev.c].gotHello) =>
                      /\ ev.now - cstate[ev.c].hello >= cstate[ev.c].connTimeout - Slack                              \* unanswered connect: DISCONNECTED after the configured time-out
                      /\ (cstate[ev.c].hascb => ev.cbs = 1 /\ ev.cbtrue = 0)                                          \* callback once, with False
+\* C12: a CONNECTED client over a working link leaves that state (DISCONNECTING, DISCONNECTED) only when an application on either side closed the connection
+T_stayup(ev) == (ev.status \in {3, 4} /\ ev.c \in DOMAIN cstate /\ cstate[ev.c].status = 2) => ev.asked = 1
 \* ---- end -------------------------------------------------------------------------------------------------
 L_alldisc(ev) == \A o \in DOMAIN phase : phase[o] = "gone"                                    \* C10: shutdown disconnects every connected client
 L_shutdown(ev) == shutdownSeen /\ ev.alive = 0
@@ -128,7 +130,7 @@ RawClauses ==
     ELSE IF ev.ev = "cset" THEN (IF T_setter(ev) THEN {} ELSE {"T_setter"})
     ELSE IF ev.ev = "ccb" THEN (IF T_msgtimeout(ev) THEN {} ELSE {"T_msgtimeout"})
     ELSE IF ev.ev = "cstat" THEN
-      {c \in {"T_cliraise", "T_clidropped", "T_connfail"} : ~CASE c = "T_cliraise" -> T_cliraise(ev) [] c = "T_clidropped" -> T_clidropped(ev) [] c = "T_connfail" -> T_connfail(ev)}
+      {c \in {"T_cliraise", "T_clidropped", "T_connfail", "T_stayup"} : ~CASE c = "T_cliraise" -> T_cliraise(ev) [] c = "T_clidropped" -> T_clidropped(ev) [] c = "T_connfail" -> T_connfail(ev) [] c = "T_stayup" -> T_stayup(ev)}
     ELSE IF ev.ev = "end" THEN {c \in {"L_alldisc", "L_shutdown"} : ~CASE c = "L_alldisc" -> L_alldisc(ev) [] c = "L_shutdown" -> L_shutdown(ev)}
     ELSE {}
 \* Skip: clause names left out of the verdict (empty in every first pass; see Trace_Conn!Skip)
